@@ -1,0 +1,62 @@
+//! Verification seams (only built with `--cfg watchexec_verif`).
+//!
+//! - a thread-local watcher factory consulted by the fs source before creating an OS watcher;
+//! - access to the signal and keyboard sources' event constructors.
+//!
+//! With no factory installed, behaviour is unchanged.
+#![allow(missing_docs, clippy::type_complexity)]
+
+use std::cell::RefCell;
+
+use async_priority_channel as priority;
+use tokio::sync::mpsc;
+use watchexec_events::{Event, Keyboard, Priority};
+use watchexec_signals::Signal;
+
+use crate::{
+	error::{CriticalError, RuntimeError},
+	sources::fs::Watcher,
+};
+
+pub type BoxedEventHandler = Box<dyn FnMut(Result<notify::Event, notify::Error>) + Send>;
+pub type WatcherFactory = Box<
+	dyn FnMut(Watcher, BoxedEventHandler) -> Result<Box<dyn notify::Watcher + Send>, CriticalError>,
+>;
+
+thread_local! {
+	static FACTORY: RefCell<Option<WatcherFactory>> = const { RefCell::new(None) };
+}
+
+/// Install (or remove) the watcher factory of the current thread.
+pub fn set_watcher_factory(f: Option<WatcherFactory>) {
+	FACTORY.with(|i| *i.borrow_mut() = f);
+}
+
+pub(crate) fn make_watcher(
+	kind: Watcher,
+	mut handler: impl notify::EventHandler,
+) -> Result<Result<Box<dyn notify::Watcher + Send>, CriticalError>, BoxedEventHandler> {
+	let boxed: BoxedEventHandler = Box::new(move |ev| handler.handle_event(ev));
+	FACTORY.with(|i| match i.borrow_mut().as_mut() {
+		Some(f) => Ok(f(kind, boxed)),
+		None => Err(boxed),
+	})
+}
+
+/// The signal source's event constructor + sender (what the signal worker does per signal).
+pub async fn signal_send_event(
+	errors: mpsc::Sender<RuntimeError>,
+	events: priority::Sender<Event, Priority>,
+	sig: Signal,
+) -> Result<(), CriticalError> {
+	crate::sources::signal::verif_send_event(errors, events, sig).await
+}
+
+/// The keyboard source's event constructor + sender (what the stdin watcher does on EOF).
+pub async fn keyboard_send_event(
+	errors: mpsc::Sender<RuntimeError>,
+	events: priority::Sender<Event, Priority>,
+	msg: Keyboard,
+) -> Result<(), CriticalError> {
+	crate::sources::keyboard::verif_send_event(errors, events, msg).await
+}
